@@ -79,5 +79,31 @@ theorem exec_spec (blocks : List (List (ℤ × G))) (acc : C) (hinv : m.inv acc)
     push_cast
     nlinarith
 
+/-- **`cbt_gives_ggsw` with noise over the block machine** (the form of `C15Noise.cbt_gives_ggsw_noise` whose blind rotation is a machine with
+invariants): row `i` of the bootstrapped GGSW is the trace `T` of the blind-rotation output up to `Bt`, the cells of the columns `≥ 1` are
+`s_c·row + η`, `ν η ≤ Bx`; with `msg = T(X^K·phase(acc₀))` the row is `msg` up to `Ebr + Bt` and every cell is `s_c·msg` up to
+`S1·(Ebr + Bt) + Bx`, `Ebr = 2·n_lwe·B + q·U`. -/
+theorem cbt_row_cell (blocks : List (List (ℤ × G))) (acc : C) (hinv : m.inv acc)
+    (hlen : ∀ blk ∈ blocks, blk.length ≤ m.maxLen) (hgood : ∀ blk ∈ blocks, ∀ x ∈ blk, m.good x)
+    (hkey : ∀ blk ∈ blocks, OneHot (blk.map fun p => m.bit p.2))
+    (T : R → R) (hTadd : ∀ x y, T (x + y) = T x + T y) (hTle : ∀ x, S.ν (T x) ≤ S.ν x)
+    (row cell s : R) (Bt Bx S1 : ℤ) (hS1 : 0 ≤ S1) (hs : ∀ x, S.ν (s * x) ≤ S1 * S.ν x)
+    (hrow : S.ν (row - T (m.ph (m.exec acc blocks))) ≤ Bt) (hcell : S.ν (cell - s * row) ≤ Bx) :
+    S.ν (row - T (M.X (m.totalRot blocks) * m.ph acc)) ≤ (2 * (nBits blocks * m.B) + blocks.length * m.U) + Bt ∧
+    S.ν (cell - s * T (M.X (m.totalRot blocks) * m.ph acc)) ≤ S1 * ((2 * (nBits blocks * m.B) + blocks.length * m.U) + Bt) + Bx := by
+  have h := (m.exec_spec blocks acc hinv hlen hgood hkey).2
+  have hrowm : S.ν (row - T (M.X (m.totalRot blocks) * m.ph acc)) ≤ (2 * (nBits blocks * m.B) + blocks.length * m.U) + Bt := by
+    have e : row - T (M.X (m.totalRot blocks) * m.ph acc)
+        = (row - T (m.ph (m.exec acc blocks))) + T (m.ph (m.exec acc blocks) - M.X (m.totalRot blocks) * m.ph acc) := by
+      have : T (m.ph (m.exec acc blocks))
+          = T (M.X (m.totalRot blocks) * m.ph acc) + T (m.ph (m.exec acc blocks) - M.X (m.totalRot blocks) * m.ph acc) := by
+        rw [← hTadd]; congr 1; ring
+      rw [this]; ring
+    rw [e]
+    have h1 := S.add_le (row - T (m.ph (m.exec acc blocks))) (T (m.ph (m.exec acc blocks) - M.X (m.totalRot blocks) * m.ph acc))
+    have h2 := hTle (m.ph (m.exec acc blocks) - M.X (m.totalRot blocks) * m.ph acc)
+    linarith
+  exact ⟨hrowm, cbt_cell_error row cell _ s _ Bt Bx S1 hS1 hs hrowm hcell⟩
+
 end BlkMachine
 end Noise
